@@ -103,8 +103,10 @@ def unescape_path(s):
         v = int(digs, 16)
         if v > 0x10ffff:
             return ('reject', 'escape value out of Unicode range')
-        if 0xd800 <= v <= 0xdfff:
-            dontcare = 'surrogate escape'
+        if 0xd800 <= v <= 0xdfff and not 0xdc80 <= v <= 0xdcff:
+            # a surrogate code point is not a Unicode character; only U+DC80..U+DCFF occur in paths at all
+            # (Python's surrogateescape spelling of an undecodable file-name byte) and must round-trip
+            return ('reject', 'surrogate escape that is not a surrogateescape byte')
         out.append(chr(v))
         i += 2 + width
     p = ''.join(out)
